@@ -222,6 +222,10 @@ def run_history(case, want_c07=True, want_c08=True):
                 viol("C08", "session_raised", "close" if len(added) >= len(sess["ops"]) else "write",
                      "session %d (%s, chain %s) raised %r; the archive held %d members before" % (si, sess["mode"], fam, err, len(model)),
                      error=type(err).__name__)
+                if len(added) >= len(sess["ops"]):
+                    # every member was accepted and close() failed: what is left on disk is what py7zr "wrote" - no archive at all
+                    viol("C07", "session_raised", "close", "session %d (%s, chain %s): close() raised %r after all %d members were accepted; no well-formed archive was written" % (
+                        si, sess["mode"], fam, err, len(added)), error=type(err).__name__)
                 log.append(("raised", si, repr(err)[:80]))
                 break
             start = len(model)
